@@ -75,13 +75,20 @@ def _compare_layout(sem, t, T, ct, path, aligned, out):
     """Library type T vs reference (and ctypes when given), recursively through nested structures."""
     t = sem.res(t)
     if t["k"] == "a":
+        if not hasattr(T, "num_entries"):
+            out.append(f"{path}: the library type is {T.__name__} (not an array), the definition has an array here")
+            return
         return _compare_layout(sem, t["t"], T.type, ct._type_ if ct is not None else None, path + "[]", aligned, out)
     if t["k"] != "st":
         return
     lay = sem.layout(t)
+    if not hasattr(T, "__fields__"):
+        out.append(f"{path}: the library type is {T.__name__} (not a structure), the definition has a {t['kind']} here")
+        return
     lib_fields = list(T.__fields__)
     if len(lib_fields) != len(t["fields"]):
-        raise HarnessError("field count mismatch between model and library")
+        out.append(f"{path}: {len(lib_fields)} members {[f._name for f in lib_fields]}, the definition has {len(t['fields'])} ({T.__name__} is another type?)")
+        return
     if T.size != lay["size"]:
         out.append(f"{path}: size {T.size}, reference {lay['size']}")
     if aligned and T.alignment != lay["align"]:
@@ -111,24 +118,31 @@ def _compare_layout(sem, t, T, ct, path, aligned, out):
 
 
 def run_case(case, ctx):
+    if case.get("reuse"):
+        return _run_reuse(case, ctx)
+    cs = common.load(case)
+    _check_layout(case, ctx, cs, "Root", "SizeProbe")
+
+
+def _check_layout(case, ctx, cs, rootname, probe, stats=True):
     sem = refsem.Sem(case["defs"], case["cfg"])
     aligned = case["cfg"]["align"]
-    cs = common.load(case)
-    T = cs.Root
-    root = sem.res(common.ROOT)
+    T = getattr(cs, rootname)
+    ROOT = {"k": "ref", "n": rootname}
+    root = sem.res(ROOT)
     ct = ctypes_of(sem, root, not aligned, [0])
     ctx.count("oracle:ctypes" if ct is not None else "oracle:reference-only")
     out = []
     _compare_layout(sem, root, T, ct, "Root", aligned, out)
     if out:
         raise Violation("layout-differs", f"{out[:6]}: {common.describe(case)}")
-    size = sem.size(common.ROOT)
+    size = sem.size(ROOT)
     if size is None:
         raise HarnessError("C04 generator produced a dynamic definition")
     # five numbers
     nums = {"len(T)": lib(len, T)}
-    cs2 = lib(cs.load, "struct SizeProbe { char x[sizeof(Root)]; };", compiled=case["cfg"]["compiled"], align=aligned)
-    nums["sizeof(T) in expression"] = cs2 if isinstance(cs2, Err) else lib(len, cs.SizeProbe)
+    cs2 = lib(cs.load, f"struct {probe} {{ char x[sizeof({rootname})]; }};", compiled=case["cfg"]["compiled"], align=aligned)
+    nums["sizeof(T) in expression"] = cs2 if isinstance(cs2, Err) else lib(len, getattr(cs, probe))
     data = b"A" * (size + 16)  # valid UTF-16 / finite floats at every alignment
     s = io.BytesIO(data)
     obj = lib(T, s)
@@ -149,12 +163,14 @@ def run_case(case, ctx):
             errs[0].where if errs else "",
             {"which": kinds, "exc": errs[0].type if errs else None},
         )
-    feats = common.model_features(sem, common.ROOT)
+    if not stats:
+        return
+    feats = common.model_features(sem, ROOT)
     for f in feats:
         if not f.startswith("fields:"):
             ctx.count("has:" + f)
     ctx.count("cfg:aligned" if aligned else "cfg:packed")
-    packed_size = refsem.Sem(case["defs"], dict(case["cfg"], align=False)).size(common.ROOT)
+    packed_size = refsem.Sem(case["defs"], dict(case["cfg"], align=False)).size(ROOT)
     padded = aligned and size > packed_size
     if padded:
         ctx.count("aligned:has-padding")
@@ -196,6 +212,120 @@ def fixed_case(draw):
     return {"defs": d["defs"], "root": "Root", "cfg": cfg}
 
 
+TAGS = ["item", "node", "hdr", "entry"]
+
+
+def _rename(defs, suffix):
+    """Every top-level name gets a suffix (each load defines its own names; nested tags are NOT renamed)."""
+    import copy
+
+    defs = copy.deepcopy(defs)
+    mp = {d["n"]: d["n"] + suffix for d in defs}
+
+    def walk(t):
+        if t["k"] in ("ref", "e") and t["n"] in mp:
+            t["n"] = mp[t["n"]]
+        elif t["k"] in ("a", "p"):
+            walk(t["t"])
+        elif t["k"] == "st":
+            for f in t["fields"]:
+                walk(f["t"])
+
+    for d in defs:
+        d["n"] = mp[d["n"]]
+        if d["k"] in ("structdef", "typedef"):
+            walk(d["t"])
+    return defs
+
+
+def _tag_nested(draw, defs):
+    """Give inline nested structures of named fields a tag from a small pool (unique within one load)."""
+    free = list(TAGS)
+
+    def walk(t):
+        if t["k"] in ("a", "p"):
+            walk(t["t"])
+        elif t["k"] == "st":
+            for f in t["fields"]:
+                ft = f["t"]
+                while ft["k"] == "a":
+                    ft = ft["t"]
+                if ft["k"] == "st" and f.get("name") and ft.get("name") is None and free and draw(st.booleans()):
+                    ft["name"] = free.pop(draw(st.integers(0, len(free) - 1)))
+                walk(f["t"])
+
+    for d in defs:
+        if d["k"] == "structdef":
+            walk(d["t"])
+
+
+@st.composite
+def reuse_case(draw):
+    """One cstruct object, several load() calls: each defines its own top-level names, but nested structure tags, the
+    element types' display names ('item[2]', 'uint8*[2]') and the pointer width recur / change between loads."""
+    loads = []
+    for k in range(draw(st.integers(2, 3))):
+        o = gens.opts(dynamic=False, bits=False, void=False, max_depth=2, max_fields=4, hazard=False, struct_weight=5, array_weight=True)
+        d = draw(gens.definition(o, root_kind="struct"))
+        defs = _rename(d["defs"], f"_{k}")
+        _tag_nested(draw, defs)
+        loads.append({"defs": defs, "cfg": draw(gens.config())})
+    return {"reuse": True, "loads": loads}
+
+
+def _run_reuse(case, ctx):
+    from pbt.drive import import_repo
+
+    m = import_repo()
+    loads = case["loads"]
+    cs = m.cstruct(endian=loads[0]["cfg"]["endian"], pointer=loads[0]["cfg"]["ptr"])
+    tags = []
+    for k, ld in enumerate(loads):
+        r = lib(setattr, cs, "pointer", cs.resolve(ld["cfg"]["ptr"]))
+        text = libside.render(ld["defs"])
+        r = lib(cs.load, text, compiled=ld["cfg"]["compiled"], align=ld["cfg"]["align"])
+        if isinstance(r, Err):
+            raise Violation("definition-rejected", f"load #{k} on a cstruct object that already holds {k} definitions raised {r}:\n{text}", r.where)
+        # the new definition, and every earlier one again (a later load must not disturb it)
+        for j in range(k, -1, -1):
+            if loads[j]["cfg"]["ptr"] != ld["cfg"]["ptr"]:
+                continue  # existing pointer types read through the currently configured pointer type: not re-examined after a width change
+            sub = {"defs": loads[j]["defs"], "cfg": dict(loads[j]["cfg"], endian=loads[0]["cfg"]["endian"]), "root": f"Root_{j}"}
+            try:
+                _check_layout(sub, ctx, cs, f"Root_{j}", f"SizeProbe_{j}_{k}", stats=False)
+            except Violation as v:
+                raise Violation(v.kind, f"load #{j} checked after load #{k} of {len(loads)} on one cstruct object (pointer widths {[l['cfg']['ptr'] for l in loads]}): {v.detail}\nall loads:\n" + "\n---\n".join(libside.render(l["defs"]) for l in loads), v.where, v.info) from None
+        tags.append(set(_tags_of(ld["defs"])))
+    shared = any(tags[i] & tags[j] for i in range(len(tags)) for j in range(i))
+    widths = len({l["cfg"]["ptr"] for l in loads}) > 1
+    ctx.count("reuse:loads", len(loads))
+    if shared:
+        ctx.count("reuse:nested-tag-recurs-across-loads")
+    if widths:
+        ctx.count("reuse:pointer-width-changes-between-loads")
+    if shared or widths:
+        ctx.mark_nontrivial(case)
+        ctx.sample({"loads": [libside.render(l["defs"]) for l in loads], "pointer_widths": [l["cfg"]["ptr"] for l in loads]}, "reuse")
+
+
+def _tags_of(defs):
+    out = []
+
+    def walk(t):
+        if t["k"] in ("a", "p"):
+            walk(t["t"])
+        elif t["k"] == "st":
+            if t.get("name"):
+                out.append(t["name"])
+            for f in t["fields"]:
+                walk(f["t"])
+
+    for d in defs:
+        if d["k"] == "structdef":
+            walk(d["t"])
+    return out
+
+
 def selfcheck():
     """ctypes agrees with the reference layout on a fixed family (validity of the reference; exit 2 otherwise)."""
     for align in (False, True):
@@ -214,4 +344,5 @@ def stages(tier):
     return [
         EnumStage("sequences", seq_cases(3 if q else 4), shards=6 if q else 16, scope=f"all sequences of <= {3 if q else 4} fields over 12 base kinds x {{packed, aligned}}"),
         HypStage("nested", fixed_case, examples=500 if q else 4000, shards=8 if q else 16),
+        HypStage("reuse", reuse_case, examples=300 if q else 2500, shards=4 if q else 8),
     ]
